@@ -24,6 +24,7 @@ pub mod host {
     include!("sliced/actor.rs");
     include!("sliced/broadcast.rs");
     include!("sliced/members.rs");
+    include!("sliced/ring0.rs");
 
     #[cfg(kani)]
     mod proofs {
